@@ -108,6 +108,8 @@ pub mod network;
 pub mod queue;
 pub mod queue_event;
 pub mod queue_peek;
+#[cfg(feature = "verif")]
+pub mod verif;
 
 use std::{
     cmp::Ordering,
@@ -472,6 +474,12 @@ pub fn sim_advanced(
             }
             _ => {}
         }
+        #[cfg(feature = "verif")]
+        verif::rec(|| verif::Rec::Event {
+            event: next.clone(),
+            bypass: next.bypass,
+            replace: next.replace,
+        });
 
         // status
         debug!(
@@ -563,6 +571,12 @@ pub fn sim_advanced(
                 "sim(): we done, reached max trace length {}",
                 args.max_trace_length
             );
+            #[cfg(feature = "verif")]
+            verif::rec(|| verif::Rec::Exit {
+                reason: "max_trace_length",
+                iterations: sim_iterations + 1,
+                trace_len: trace.len(),
+            });
             break;
         }
 
@@ -573,18 +587,37 @@ pub fn sim_advanced(
                 "sim(): we done, reached max sim iterations {}",
                 args.max_sim_iterations
             );
+            #[cfg(feature = "verif")]
+            verif::rec(|| verif::Rec::Exit {
+                reason: "max_sim_iterations",
+                iterations: sim_iterations,
+                trace_len: trace.len(),
+            });
             break;
         }
 
         // check if we should stop after all normal packets have been processed
         if !args.continue_after_all_normal_packets_processed && sq.no_normal_packets() {
             debug!("sim(): we done, all normal packets processed");
+            #[cfg(feature = "verif")]
+            verif::rec(|| verif::Rec::Exit {
+                reason: "all_normal_processed",
+                iterations: sim_iterations,
+                trace_len: trace.len(),
+            });
             break;
         }
 
         debug!("sim(): main loop end, more work?");
         debug!("#########################################################");
     }
+
+    #[cfg(feature = "verif")]
+    verif::rec(|| verif::Rec::Exit {
+        reason: "end",
+        iterations: sim_iterations,
+        trace_len: trace.len(),
+    });
 
     // sort the trace by time
     trace.sort_by(|a, b| a.time.cmp(&b.time));
@@ -647,6 +680,11 @@ fn pick_next<M: AsRef<[Machine]>>(
     // to further delays for picked_queue
     if n <= s && n <= i && n <= b && n <= q {
         debug!("\tpick_next(): picked aggregate delay");
+        #[cfg(feature = "verif")]
+        verif::rec(|| verif::Rec::Pick {
+            what: "aggregate",
+            client: true,
+        });
         network.pop_aggregate_delay();
         return pick_next(sq, client, server, network, current_time);
     }
@@ -654,6 +692,11 @@ fn pick_next<M: AsRef<[Machine]>>(
     // next is blocking expiry, fundamental due to how we aggregate delay
     if b <= s && b <= i && b <= q {
         debug!("\tpick_next(): picked blocking");
+        #[cfg(feature = "verif")]
+        verif::rec(|| verif::Rec::Pick {
+            what: "blocking",
+            client: b_is_client,
+        });
         // create SimEvent and turn off blocking, ASSUMPTION: block outgoing is
         // reported from integration
         let delay: Duration;
@@ -728,6 +771,11 @@ fn pick_next<M: AsRef<[Machine]>>(
             )
             .unwrap();
         debug!("\tpick_next(): popped from queue {:?}", tmp);
+        #[cfg(feature = "verif")]
+        verif::rec(|| verif::Rec::Pick {
+            what: "queue",
+            client: q_is_client,
+        });
         // check if blocking moves the event forward in time
         if current_time + q > tmp.time {
             // move the event forward in time
@@ -741,6 +789,11 @@ fn pick_next<M: AsRef<[Machine]>>(
     // actions due to less work
     if i <= s {
         debug!("\tpick_next(): picked internal timer");
+        #[cfg(feature = "verif")]
+        verif::rec(|| verif::Rec::Pick {
+            what: "timer",
+            client: true,
+        });
         let target = current_time + i;
         let act = do_internal_timer(client, server, target);
         if let Some(a) = act {
@@ -752,6 +805,11 @@ fn pick_next<M: AsRef<[Machine]>>(
     // what's left is scheduled actions: find the action act on the action,
     // putting the event into the sim queue, and then recurse
     debug!("\tpick_next(): picked scheduled action");
+    #[cfg(feature = "verif")]
+    verif::rec(|| verif::Rec::Pick {
+        what: "action",
+        client: true,
+    });
     let target = current_time + s;
     let act = do_scheduled_action(client, server, target);
     if let Some(a) = act {
@@ -898,6 +956,12 @@ fn do_scheduled_action<M: AsRef<[Machine]>>(
             let reported = a.time + total_delay;
 
             // should we update client/server blocking?
+            #[cfg(feature = "verif")]
+            let verif_before = if is_client {
+                client.blocking_until
+            } else {
+                server.blocking_until
+            };
             if is_client {
                 if replace || block > client.blocking_until.unwrap_or(a.time) {
                     client.blocking_until = Some(block);
@@ -910,6 +974,20 @@ fn do_scheduled_action<M: AsRef<[Machine]>>(
                     server.blocking_bypassable = bypass;
                 }
                 event_bypass = server.blocking_bypassable;
+            }
+            #[cfg(feature = "verif")]
+            {
+                let until = if is_client {
+                    client.blocking_until
+                } else {
+                    server.blocking_until
+                };
+                verif::rec(|| verif::Rec::BlockSet {
+                    client: is_client,
+                    until,
+                    bypassable: event_bypass,
+                    updated: replace || block > verif_before.unwrap_or(a.time),
+                });
             }
 
             // event triggered regardless
@@ -941,6 +1019,12 @@ fn trigger_update<M: AsRef<[Machine]>>(
         .framework
         .trigger_events(&[next.event.clone()], *current_time)
     {
+        #[cfg(feature = "verif")]
+        verif::rec(|| verif::Rec::Action {
+            client: is_client,
+            action: action.clone(),
+            time: *current_time,
+        });
         match action {
             TriggerAction::Cancel { machine, timer } => {
                 debug!(
